@@ -32,6 +32,9 @@ pub struct Plan {
     pub guided: usize,
     pub guided_len: (usize, usize),
     pub stress_n: usize,
+    /// also feed scalar values no definition mentions: the ends of the code space, both sides of the
+    /// surrogate gap, plane boundaries (C09: "any sequence of Unicode scalar values")
+    pub hostile: bool,
     pub ctors: bool,
     pub clones: usize, // 0 none, N: check clone points on every N-th input
     pub alpha_cap: usize,
@@ -55,6 +58,7 @@ impl Plan {
             guided: env_usize("VP_GUIDED", 40),
             guided_len: (env_usize("VP_GUIDED_LO", 4), env_usize("VP_GUIDED_HI", 30)),
             stress_n: env_usize("VP_STRESS_N", 0),
+            hostile: env_usize("VP_HOSTILE", 0) != 0,
             ctors: env_usize("VP_CTORS", 0) != 0,
             clones: env_usize("VP_CLONES", 0),
             alpha_cap: env_usize("VP_ALPHA_CAP", 5),
@@ -600,6 +604,24 @@ fn run_case(ctx: &CaseCtx, stats: &mut Stats, out: &mut Vec<Violation>, harness:
                 inputs_v.push(w[..n].to_vec());
             }
         }
+    }
+    if plan.hostile {
+        // none of these lies in a range whose built-in table is known to be stale (C13's known finding)
+        const HOSTILE: [char; 10] = ['\0', '\u{7F}', '\u{80}', '\u{D7FF}', '\u{E000}', '\u{FFFF}', '\u{10000}', '\u{EFFFF}', '\u{F0000}', '\u{10FFFF}'];
+        let firsts: Vec<char> = alpha.iter().copied().take(3).collect();
+        for h in HOSTILE {
+            inputs_v.push(vec![h]);
+            inputs_v.push(vec![h, h]);
+            for a in &firsts {
+                inputs_v.push(vec![*a, h]);
+                inputs_v.push(vec![*a, h, *a]);
+                inputs_v.push(vec![h, *a]);
+                for b in &firsts {
+                    inputs_v.push(vec![*a, *b, h, *a]);
+                }
+            }
+        }
+        stats.inc("hostile_inputs", 1);
     }
     if let Ok(only) = std::env::var("VP_ONLY_INPUT") {
         // replay mode: exactly one input, given as comma-separated code points
